@@ -25,9 +25,11 @@ class Exploration:
         vals.name.defs = []; vals.name.n = 0; vals.SIB.clear()
         opts = dict(cfg.get('opts', {}))
         s.e = Engine(m, s.NT, concrete=concrete, opts=opts)
+        if concrete is None: vals.pruner.reset(s.e.assumes)
+        vals.pruner.enabled = concrete is None and bool(opts.get('prune'))
         s.e.sequential = (s.NT == 0)
         s.e.ctrlsets = []
-        s.scheds = []; s.steps_used = 0
+        s.scheds = []; s.steps_used = 0; s.hist = []
         s.log = []
     # -- helper: wrap step_ins to expose the current control tuple for stable nondet names
     def build(s, verbose=False):
@@ -125,6 +127,7 @@ class Exploration:
                 for c, (g, env) in new.items():
                     if g is not False: ctrl[t][c] = (name(g), env)
             s.steps_used = k + 1
+            if s.cfg.get('opts', {}).get('hist'): s.hist.append([{c: g for c, (g, _e) in ctrl[t].items()} for t in range(NT)])
             if verbose: print('step %d: ctrl %s ins=%d cells=%d checks=%d defs=%d t=%.1fs' % (k, [len(c) for c in ctrl], e.stats['ins'], len(e.mem.mem), len(e.checks), len(name.defs), time.time() - t0), flush=True)
             if all(len(c) == 1 and DONE in c for c in ctrl): break
         if C is not None and pre_cnt is not None and s.concrete is None:
@@ -218,7 +221,8 @@ def run_harness(ll_path, cfg, verbose=False, jobs=4, timeout_s=600):
         return res
     res['build_s'] = X.build_s; res['steps'] = X.steps_used
     res['stats'] = dict(e.stats, cells=len(e.mem.mem), regions=len(e.mem.regions), checks=len(e.checks), defs=len(name.defs),
-                        assumes=len(e.assumes), inputs=len(e.inputs), undef_reads=e.mem.nundef)
+                        assumes=len(e.assumes), inputs=len(e.inputs), undef_reads=e.mem.nundef,
+                        prune_calls=vals.pruner.calls, prune_dropped=vals.pruner.dropped, prune_s=round(vals.pruner.time, 1))
     res['functions'] = sorted(e.fn_ins.items(), key=lambda x: -x[1])
     res['queries'] = []
     verdict = 'pass'; notes = []
